@@ -4,5 +4,6 @@ TRUSTED = ["Coq 8.16.1 kernel (coqc full .vo build; vm_compute used only to eval
            "Python harness: generators, accessors through pyformlang's public API, interning of values to N, Coq-output parser"]
 ASSUMPTIONS = ["state and symbol values are ints or strings (interned to N for the model); bool/float values are out of scope",
                "the correspondence leg is differential testing (validates the model against the code); the universally quantified claim is carried by the Coq theorems",
-               "fuel: model functions exploring exponential spaces return None when 2^40 steps are exhausted; theorems exclude that result and such cases are skipped, never judged"]
+               "fuel: model functions exploring exponential spaces return None when 2^40 steps are exhausted; theorems exclude that result, such cases are skipped, never judged, and Proofs/Totality.v proves the fuel sufficient for automata of up to 38 states (determinize, intersection, enfa_equiv)",
+               "axioms: none (Print Assumptions closed for every theorem; coqchk -o reports none)"]
 TECHNIQUE = "Rocq/Coq proof about an executable Gallina model + differential correspondence (model evaluated by vm_compute inside Coq) + proved-sound equivalence certificate on returned automata"
